@@ -52,3 +52,25 @@ if __name__ == '__main__':
     print(t); print(a, b)
     t, n, d, c = seeded()
     print(t); print(n, d, c)
+
+
+def benign():
+    """table of the behaviour-preserving refactorings under benign/ and what the quick checks said about them"""
+    B = os.path.join(ROOT, 'benign')
+    res = json.load(open(os.path.join(B, 'RESULTS.json'))) if os.path.exists(os.path.join(B, 'RESULTS.json')) else {}
+    rows = ['| id | files rewritten | what was rewritten | quick checks run (others: no dependency changed) | alarms | tie notes |', '|----|----|----|----|----|----|']
+    n = ok = 0
+    for bid in sorted(d for d in os.listdir(B) if os.path.isdir(os.path.join(B, d))):
+        m = json.load(open(os.path.join(B, bid, 'meta.json')))
+        r = res.get(bid, {})
+        ch = r.get('checks', {})
+        ran = sorted(p for p, v in ch.items() if not v.get('skipped'))
+        notes = sorted({p for p, v in ch.items() if v.get('notes')})
+        n += 1
+        ok += 1 if r.get('applied') and not r.get('alarms') else 0
+        summ = m.get('summary', '').replace('|', '/').replace('\n', ' ')
+        rows.append('| %s | %s | %s | %d: %s | %s | %s |' % (
+            bid, '<br>'.join(os.path.basename(f) for f in m.get('files', [])), summ[:260] + ('…' if len(summ) > 260 else ''),
+            len(ran), ' '.join(ran), ', '.join(r.get('alarms', [])) or 'none',
+            ('translator refused a rewritten function (tie unavailable, boosted correspondence): ' + ' '.join(notes)) if notes else '—'))
+    return '\n'.join(rows), n, ok
